@@ -116,7 +116,23 @@ def c07(tier, rng, fam='C07'):
                 b.step('send', c=5, pay='o2').step('recv', c=5).step('close', c=5).step('recv', c=5)
             out.append(b.q().done())
     out += cancel_in_send_between_reads(fam)
-    return out
+    # the same positions with a caller whose context ends WITH A CAUSE of its own (context.WithCancelCause /
+    # WithTimeoutCause): Err() is what counts - receives report Canceled / DeadlineExceeded, sends the context's error
+    import copy
+    extra = []
+    for k, s_ in enumerate(list(out)):
+        if k % 5 or s_.get('topo'):
+            continue
+        c = copy.deepcopy(s_)
+        hit = False
+        for st in c['steps']:
+            if st.get('op') in ('sopen', 'ucall') and st.get('c') == 1:
+                st['what'] = 'cause'
+                hit = True
+        if hit:
+            c['tag'] = 'cause: ' + c['tag']
+            extra.append(c)
+    return out + extra
 
 
 # ------------------------------------------------------------------ C09 -----
